@@ -305,7 +305,7 @@ def wl_C06(tier, rng):
             ops += ["clearEdges 2", gen.new_line(3, cls, kind, n), "eq 2 3", "eq 3 2"]
         ops += ["eq 0 2", "eq 2 0", "eq 1 2", "dump 1"]
         # assignment independence
-        ops += ["assign 0 4", "eq 0 4"]
+        ops += ["assign 0 4", "eq 0 4", "assign 4 4", "eq 0 4", "eq 4 4"]   # incl. self-assignment
         if n > 0:
             a, b = gen.pick_pair(rng, n)
             ops += [add_op(cls, 0, a, b, val_for(rng, cls, kind)), "dump 4", "eq 0 4", "eq 1 4"]
@@ -509,7 +509,7 @@ def wl_C09(tier, rng):
             ops += ["reversed 0 1", "reversed 1 2", "eq 0 2", "eq 2 0", "ofdirected 0 3", "todirected 3 4", "ofdirected 4 5", "eq 3 5"]
         elif cls == "und":
             ops += ["todirected 0 1", "ofdirected 1 2", "eq 0 2", "eq 2 0", "reversed 1 3", "eq 1 3"]
-        ops += ["copy 0 6", "eq 0 6", "assign 0 7", "eq 7 0"]
+        ops += ["copy 0 6", "eq 0 6", "assign 0 7", "eq 7 0", "assign 7 7", "eq 7 0", "assign 0 0", "eq 0 6"]   # incl. self-assignment
         # edge-list constructor vs one-at-a-time
         if True:
             cont = rng.choice(["vector", "list", "deque", "flist"])
